@@ -106,7 +106,7 @@ def _render(g, order=0):
         if m == "c" and visible(g, m, "pb"):
             other = "pb(); "
         if bare:
-            out.append("pub fn pc() { println(\"c.p bare\"); %s%sh(); }" % ("f(); " if sees_f else "", other))
+            out.append("pub fn pc() { println(\"c.p bare\"); %s%s%sh(); }" % ("println(\"c.tag\", tag()); " if host != "none" else "", "f(); " if sees_f else "", other))
             out.append("pub fn main() { println(\"c.main\"); }")
         elif m in ("b", "c"):
             sees_y = "println(\"b.y\", y); " if m == "b" and any(it[0] == "y" for it in imports(g, m)) else ""
@@ -114,7 +114,7 @@ def _render(g, order=0):
                 sees_y += "println(\"%s.tag\", tag()); " % m
             if m == "b" and g.get("tval"):
                 sees_y += "println(\"b.T\", T); "
-            out.append("pub fn p%s() { println(\"%s.p\", x, hist.len()); %s%s%sh(); }" % (m, m, sees_y, "f(); " if sees_f else "", other))
+            out.append("pub fn p%s() { x += 1; println(\"%s.p\", x, hist.len()); %s%s%sh(); }" % (m, m, sees_y, "f(); " if sees_f else "", other))
             # a library's own main (pub when its x is pub) is never run: only the entry module's main is
             out.append("%sfn main() { println(\"%s.main\"); }" % ("pub " if g["x"][m] == "pub" else "", m))
         else:
